@@ -363,7 +363,9 @@ def tree_confirm(tname, ops, kind, fld, mk, mv, include):
         vidx = lambda t: vcls.setdefault(ev(t).as_long(), len(vcls))
         inp = {"nops": len(ops), "kind": ("counter", "gauge", "histogram").index(kind)}
         for i, op in enumerate(ops):
-            inp[f"op{i}_kind"] = ("new", "enter", "exit", "record", "emit").index(op[0])
+            inp[f"op{i}_kind"] = ("new", "enter", "exit", "record", "emit", "thread").index(op[0])
+            if op[0] == "thread":
+                inp[f"op{i}_thread"] = op[1]
             if op[0] in ("new", "enter", "record"):
                 inp[f"op{i}_span"] = op[1]
             if op[0] == "new":
@@ -461,6 +463,10 @@ TREES = {
     "entered_then_exited": [("new", 1, 1, "ctx"), ("enter", 1), ("exit",), ("emit", 1)],
     "fieldless_span_only": [("new", 1, 0, "ctx"), ("enter", 1), ("emit", 1)],
     "record_replaces_own_value": [("new", 1, 1, "ctx"), ("record", 1), ("record", 1), ("enter", 1), ("emit", 1)],
+    # ("thread", t): the following operations run on thread t (each thread has its own current span; a span handle can be used anywhere)
+    "emit_record_elsewhere_emit": [("new", 1, 1, "ctx"), ("enter", 1), ("emit", 1), ("thread", 2), ("record", 1), ("thread", 1), ("emit", 1)],
+    "two_threads_own_spans": [("new", 1, 1, "ctx"), ("enter", 1), ("thread", 2), ("new", 2, 1, "ctx"), ("enter", 2), ("emit", 1), ("thread", 1), ("emit", 1)],
+    "emit_twice_with_record_between": [("new", 1, 1, "ctx"), ("enter", 1), ("emit", 0), ("record", 1), ("emit", 0), ("new", 2, 0, "ctx"), ("enter", 2), ("emit", 1)],
 }
 TREES_THOROUGH = {
     "three_levels": [("new", 1, 1, "ctx"), ("enter", 1), ("new", 2, 1, "ctx"), ("enter", 2), ("new", 3, 1, "ctx"), ("record", 2), ("enter", 3), ("emit", 1)],
@@ -483,8 +489,13 @@ def span_tree(e3, thorough):
     for ti, (tname, ops) in enumerate(trees.items()):
         kind = ("counter", "gauge", "histogram")[ti % 3]
         # ---- the concrete shape of the tree (the registry's own bookkeeping): parents, the entered stack before each op
-        parents, stack, curs = {}, [], []
+        parents, stacks, curs, thr, cur_thread = {}, {1: []}, [], [], 1
         for op in ops:
+            if op[0] == "thread":
+                cur_thread = op[1]
+                stacks.setdefault(cur_thread, [])
+            stack = stacks[cur_thread]
+            thr.append(cur_thread)
             curs.append(stack[-1] if stack else None)
             if op[0] == "new":
                 parents[op[1]] = (stack[-1] if stack else None) if op[3] == "ctx" else (None if op[3] == "root" else op[3][1])
@@ -498,7 +509,7 @@ def span_tree(e3, thorough):
         def mkfield(i):
             fld[i] = (z3.Int(f"field_name_op{i}"), z3.Int(f"field_val_op{i}"))
             return fld[i]
-        nml = [op for op in ops if op[0] == "emit"][0][1]
+        nml = max(op[1] for op in ops if op[0] == "emit")
         mk = [z3.Int(f"metric_name{i}") for i in range(nml)]
         mv = [z3.Int(f"metric_val{i}") for i in range(nml)]
         base = [z3.Distinct(*mk)] if nml > 1 else []
@@ -546,7 +557,7 @@ def span_tree(e3, thorough):
             return Native("liter", (tuple(items), 0))
 
         def m_register(eng, ctx, f, path, args, dty):
-            ctx.observe("inner_register", key=MC.load(eng, ctx, args[1]), kind=path.rsplit("::", 1)[-1])
+            ctx.observe("inner_register", key=MC.load(eng, ctx, args[1]), kind=path.rsplit("::", 1)[-1], emit=ctx.statics.get("w_emit"))
             return Opaque("handle")
         cur_id = lambda ctx: ctx.statics["w_cur"]
         idptr = lambda n: Ptr(("static", f"id_{n}"))
@@ -580,10 +591,11 @@ def span_tree(e3, thorough):
         eng = sym.Engine(P, models=m2, loop_bound=8, max_paths=20000)
         eng.merging = False
         ctx0 = sym.Ctx(eng, 1)
-        ctx0.statics = {"w_spans": (), "w_parents": (), "w_cur": None, "dispatch": Opaque("dispatch"), "registry": Opaque("registry"),
+        ctx0.statics = {"w_spans": (), "w_parents": (), "w_cur": None, "w_thread": 1, "w_emit": None, "dispatch": Opaque("dispatch"), "registry": Opaque("registry"),
                         "layer": Agg({0: Enum(0, {}, "Option")}), "tc": Agg({0: Opaque("inner"), 1: Opaque("filter")}),
-                        "key": Native("key", (Native("aname", z3.Int("metric")), MS.lvec(tuple(Native("label", (Native("aname", mk[i]), Native("aval", mv[i]))) for i in range(nml))))),
                         "metadata": Opaque("metadata")}
+        for nl_ in sorted({op[1] for op in ops if op[0] == "emit"}):
+            ctx0.statics[f"key{nl_}"] = Native("key", (Native("aname", z3.Int("metric")), MS.lvec(tuple(Native("label", (Native("aname", mk[i]), Native("aval", mv[i]))) for i in range(nl_)))))
         for s in sids:
             ctx0.statics[f"labels_{s}"] = None
             ctx0.statics[f"id_{s}"] = Native("id", s)
@@ -597,6 +609,7 @@ def span_tree(e3, thorough):
             spans, pars = [], []
             for i, op in enumerate(ops):
                 yield ("setstatic", "w_cur", curs[i])
+                yield ("setstatic", "w_thread", thr[i])
                 if op[0] == "new":
                     spans.append(op[1])
                     pars.append((op[1], parents[op[1]]))
@@ -608,14 +621,15 @@ def span_tree(e3, thorough):
                     yield ("setstatic", f"rec_{i}", Native("record", (fld[i],)))
                     yield ("call", rec_b, [Ptr(("static", "layer")), Ptr(("static", f"id_{op[1]}")), Ptr(("static", f"rec_{i}")), Opaque("cx")])
                 elif op[0] == "emit":
-                    yield ("call", reg_b[kind], [Ptr(("static", "tc")), Ptr(("static", "key")), Ptr(("static", "metadata"))])
+                    yield ("setstatic", "w_emit", i)
+                    yield ("call", reg_b[kind], [Ptr(("static", "tc")), Ptr(("static", f"key{op[1]}")), Ptr(("static", "metadata"))])
             return UNIT
         leaves = eng.run_script(1, tname, script, ctx0=ctx0)
         e3.absorb(eng)
         done = [l for l in leaves if l.status == "done"]
         other = z3.Or(*[l.taken() for l in leaves if l.status != "done"] or [z3.BoolVal(False)])
         # ---- the rule, computed on the tree: a span's labels are a priority list (first match wins)
-        lab, cur_final = {}, None
+        lab, emits = {}, {}     # emits: op index -> expected entries (name, value, guard or None), first match wins
         for i, op in enumerate(ops):
             if op[0] == "new":
                 own = [fld[i]] if op[2] else []
@@ -623,14 +637,13 @@ def span_tree(e3, thorough):
             elif op[0] == "record":
                 lab[op[1]] = [fld[i]] + lab[op[1]]
             elif op[0] == "emit":
-                cur_final = curs[i]
-        span_entries = list(lab.get(cur_final, [])) if cur_final is not None else []
-        entries = [(mk[i], mv[i], None) for i in range(nml)] + [(k, v, include(k)) for k, v in span_entries]
+                span_entries = list(lab.get(curs[i], [])) if curs[i] is not None else []
+                emits[i] = [(mk[k_], mv[k_], None) for k_ in range(op[1])] + [(k_, v_, include(k_)) for k_, v_ in span_entries]
 
-        def exp_has(n):
+        def exp_has(entries, n):
             return z3.Or(*[z3.And(k == n, g) if g is not None else k == n for k, v, g in entries] or [z3.BoolVal(False)])
 
-        def exp_val(n):
+        def exp_val(entries, n):
             r = z3.IntVal(-1)
             for k, v, g in reversed(entries):
                 r = z3.If(z3.And(k == n, g) if g is not None else k == n, v, r)
@@ -639,14 +652,19 @@ def span_tree(e3, thorough):
         for l in done:
             obs = [(ev.guard, pl) for (lb, ev, pl) in l.ctx.obs if lb == "inner_register"]
             # paths through a call that end in the same state are merged: an observation counts where its guard holds
-            bad["once"].append(z3.And(l.taken(), z3.Sum(*[z3.If(g, 1, 0) for g, pl in obs], z3.IntVal(0)) != 1))
+            for ei in emits:
+                bad["once"].append(z3.And(l.taken(), z3.Sum(*[z3.If(g, 1, 0) for g, pl in obs if pl["emit"] == ei], z3.IntVal(0)) != 1))
             for g, pl in obs:
+                entries = emits.get(pl["emit"])
+                if entries is None:
+                    bad["once"].append(z3.And(l.taken(), g))
+                    continue
                 k = pl["key"]
                 labs = k.data[1].data
                 names = [x.data[0].data for x in labs]
                 vals = [x.data[1].data for x in labs]
                 res_has = lambda n: z3.Or(*[names[j] == n for j in range(len(labs))] or [z3.BoolVal(False)])
-                wrong = [z3.Or(z3.Not(exp_has(names[j])), vals[j] != exp_val(names[j])) for j in range(len(labs))]
+                wrong = [z3.Or(z3.Not(exp_has(entries, names[j])), vals[j] != exp_val(entries, names[j])) for j in range(len(labs))]
                 missing = [z3.And(gg if gg is not None else z3.BoolVal(True), z3.Not(res_has(kk))) for kk, v, gg in entries]
                 bad["rule"].append(z3.And(l.taken(), g, z3.Or(*(wrong + missing) or [z3.BoolVal(False)])))
                 bad["dup"].append(z3.And(l.taken(), g, z3.Or(*[names[a] == names[b] for a in range(len(labs)) for b in range(a + 1, len(labs))] or [z3.BoolVal(False)])))
